@@ -218,3 +218,14 @@ v("c11-translator-filters-constraint-nodes", {"C11", "C03", "C10"}, (NED, "     
 v("c11-translator-filters-starts", {"C11", "C10"}, (NED, "        return [self.get_expanded_edge(node)[0] for node in additional_starts]", "        return [self.get_expanded_edge(node)[0] for node in additional_starts if self.original_G.in_degree(node) > 0]", 1))
 v("c06-flow-safety-threshold-strict", {"C06", "C05"}, ("flowpaths/utils/safetyflowdecomp.py", "if inexact_excess + rightdiff <= 0:", "if inexact_excess + rightdiff < 0:", 1))
 v("benign-flow-safety-threshold-restyled", B, ("flowpaths/utils/safetyflowdecomp.py", "if inexact_excess + rightdiff <= 0:", "if 0 >= rightdiff + inexact_excess:", 1))
+# --- C17.R4 reachability DP direction
+SDAG = "flowpaths/stdag.py"
+SDG = "flowpaths/stdigraph.py"
+v("c17-dp-wrong-order", {"C17"}, (SDAG, "            for node in self.topological_order_rev:\n                for v in self.successors(node):\n                    self._reachable_nodes_from[node] |= self._reachable_nodes_from[v]",
+                                   "            for node in self.topological_order:\n                for v in self.successors(node):\n                    self._reachable_nodes_from[node] |= self._reachable_nodes_from[v]", 1))
+v("c17-dp-edge-orientation", {"C17"}, (SDAG, "self._reachable_edges_rev_from[node] |= {(v, node)}", "self._reachable_edges_rev_from[node] |= {(node, v)}", 1))
+v("c17-dp-seed-empty", {"C17"}, (SDAG, "self._nodes_reaching = {node:{node} for node in self.nodes()}", "self._nodes_reaching = {node:set() for node in self.nodes()}", 1))
+v("c17-reaching-uses-descendants", {"C17"}, (SDG, "ancestor_sccs = set(nx.ancestors(C, cu)) | {cu}", "ancestor_sccs = set(nx.descendants(C, cu)) | {cu}", 1))
+v("c17-reachable-excludes-own-scc", {"C17"}, (SDG, "reachable_sccs = set(nx.descendants(C, cv)) | {cv}", "reachable_sccs = set(nx.descendants(C, cv))", 1))
+v("benign-dp-renamed", B, (SDAG, "            for node in self.topological_order_rev:\n                for v in self.successors(node):\n                    self._reachable_nodes_from[node] |= self._reachable_nodes_from[v]",
+                           "            for x in self.topological_order_rev:\n                for succ in self.successors(x):\n                    self._reachable_nodes_from[x] |= self._reachable_nodes_from[succ]", 1))
